@@ -582,10 +582,15 @@ def standard_main(prop, module, argv):
         payload = json.load(open(path))
         ctx = Ctx(prop, "quick", int(payload.get("seed", 0)))
         rep = getattr(module, "replay", None)
+        if str(payload.get("key", "")).startswith("srctie-") and payload.get("kind") == "failing-input":
+            rep = rep or (lambda c, p: None)
         if rep is None or payload.get("kind") != "failing-input":
             ctx.say(f"replay: {payload.get('kind')} -- re-running the quick check instead")
             return run_check(prop, module, "quick", int(payload.get("seed", 0)))
         import_armi()
+        if str(payload.get("key", "")).startswith("srctie-"):
+            from harness import srctie
+            rep = srctie.replay
         res = rep(ctx, payload)
         if res:
             ctx.say(f"VIOLATION property={prop} replay={os.path.relpath(path, VERIF)}")
@@ -597,6 +602,20 @@ def standard_main(prop, module, argv):
     if tier not in ("quick", "thorough"):
         raise Infra(f"unknown tier {tier}")
     return run_check(prop, module, tier, seed)
+
+
+def source_tie(ctx, prop):
+    """Source-translation tie (harness/srctie.py): re-translate the tied functions from the current source text,
+    re-check the equivalence / corollary theorems, validate the translator. Same process, same evidence.
+    VERIF_NO_SRCTIE=1 skips it. A failure inside it that is not a verdict about armi is an Infra (exit 2)."""
+    if os.environ.get("VERIF_NO_SRCTIE") == "1":
+        return
+    try:
+        from harness import srctie
+    except ImportError:
+        return
+    if prop in srctie.TIES:
+        srctie.run(ctx, prop)
 
 
 def run_check(prop, module, tier, seed):
@@ -664,6 +683,7 @@ def run_check(prop, module, tier, seed):
         ctx.failures.extend(found)
     else:
         module.run(ctx)
+        source_tie(ctx, prop)
     # 4/5. verdict + evidence
     violations = decide(ctx, module)
     write_evidence(ctx, violations)
